@@ -18,6 +18,12 @@
 //          q=<n,...>                    getIndex for the query triples of the input line (mostly invalid ones)
 //          chk=<bits>                   checkIndex(0..IndexSize+1)
 //   H <id> <label>=<hash> ...          boost::hash of every label that occurs (as stored in IndexInfo::SiteLabelHash)
+// Re-prepare histories (a repeated prepare() "starts from scratch" since 1fd1f00):
+//   hist <id> <modes,modes,...> <nsites> { <label> <orbitals> <spins> }*nsites <nqueries> { <label> <orbital> <spin> }*nqueries
+// every <modes> is a string over {0,1}; for each one a fresh IndexClassification is constructed on the lattice and
+// prepare(m) is called once per character ON THAT SAME OBJECT; after every call one line
+//   S <id>:<modes>:<k> <the fields of an R line>      k = position of the call in the history (0-based)
+// describes the object as it is then.  A call that raises SIGSEGV ends its history ("S <id> DIED ..." if the child dies).
 // Every case runs in a forked child, so whatever a defective prepare() does to the heap cannot affect later cases;
 // a child that dies anyway is reported as "R <id> DIED <status>".
 #include <pomerol.h>
@@ -53,45 +59,56 @@ static std::string entry(const std::string& l, unsigned o, unsigned s) {
     std::ostringstream os; os << enc(l) << ":" << o << ":" << s; return os.str();
 }
 
-static void run_case(const std::vector<std::string>& t) {
-    size_t p = 1;
-    std::string id = t[p++];
-    bool order_spins = atoi(t[p++].c_str()) != 0;
-    int ns = atoi(t[p++].c_str());
+struct Input {
+    std::string id, modes;
     Lattice L;
     std::set<std::string> all_labels;
+    std::vector<std::string> ql; std::vector<int> qo, qs;
+};
+
+// reads { <label> <orbitals> <spins> }*nsites <nqueries> { <label> <orbital> <spin> }*nqueries starting at t[p] (t[p] = nsites)
+static void read_lattice(const std::vector<std::string>& t, size_t p, Input& in) {
+    int ns = atoi(t[p++].c_str());
     for (int k = 0; k < ns; ++k) {
         std::string l = dec(t[p]); int orb = atoi(t[p + 1].c_str()), spin = atoi(t[p + 2].c_str()); p += 3;
-        L.addSite(new Lattice::Site(l, orb, spin));
-        all_labels.insert(l);
+        in.L.addSite(new Lattice::Site(l, orb, spin));
+        in.all_labels.insert(l);
     }
     int nq = atoi(t[p++].c_str());
-    std::vector<std::string> ql; std::vector<int> qo, qs;
     for (int k = 0; k < nq; ++k) {
-        ql.push_back(dec(t[p])); qo.push_back(atoi(t[p + 1].c_str())); qs.push_back(atoi(t[p + 2].c_str())); p += 3;
-        all_labels.insert(ql.back());
+        in.ql.push_back(dec(t[p])); in.qo.push_back(atoi(t[p + 1].c_str())); in.qs.push_back(atoi(t[p + 2].c_str())); p += 3;
+        in.all_labels.insert(in.ql.back());
     }
-    const Lattice::SiteMap& SM = L.getSiteMap();
+}
+
+static std::string sites_field(const Lattice::SiteMap& SM) {
     std::ostringstream out;
-    out << "R " << id << " sites=";
+    out << "sites=";
     for (Lattice::SiteMap::const_iterator it = SM.begin(); it != SM.end(); ++it)
         out << (it == SM.begin() ? "" : ",") << entry(it->first, it->second->OrbitalSize, it->second->SpinSize);
+    return out.str();
+}
 
-    IndexClassification IC(SM);
+// IC.prepare(order_spins) with SIGSEGV / SIGBUS caught; returns true when the call crashed
+static bool guarded_prepare(IndexClassification& IC, bool order_spins) {
     volatile bool crashed = false;
     struct sigaction sa, old_segv, old_bus;
     sa.sa_handler = on_segv; sigemptyset(&sa.sa_mask); sa.sa_flags = 0;
     sigaction(SIGSEGV, &sa, &old_segv); sigaction(SIGBUS, &sa, &old_bus);
     if (sigsetjmp(jb, 1) == 0) IC.prepare(order_spins); else crashed = true;
     sigaction(SIGSEGV, &old_segv, 0); sigaction(SIGBUS, &old_bus, 0);
+    return crashed;
+}
 
+// the fields size= ... chk= of an R line: the state of IC as it is now (after the last prepare call)
+static std::string state_fields(IndexClassification& IC, const Lattice::SiteMap& SM, const Input& in, bool crashed) {
+    std::ostringstream out;
     ParticleIndex N = IC.IndexSize;
     out << " size=" << N << " vec=";
-    bool has_null = false;
     for (size_t i = 0; i < IC.IndicesToInfo.size(); ++i) {
         IndexClassification::IndexInfo* ptr = IC.IndicesToInfo[i];
         out << (i ? "," : "");
-        if (!ptr) { out << "NULL"; has_null = true; }
+        if (!ptr) out << "NULL";
         else out << entry(ptr->SiteLabel, ptr->Orbital, ptr->Spin);
     }
     out << " prepare=" << (crashed ? "SEGV" : "ok");
@@ -117,12 +134,28 @@ static void run_case(const std::vector<std::string>& t) {
                     out << (first ? "" : ",") << IC.getIndex(it->first, o, s); first = false;
                 }
         out << " q=";
-        for (int k = 0; k < nq; ++k) out << (k ? "," : "") << IC.getIndex(ql[k], qo[k], qs[k]);
+        for (size_t k = 0; k < in.ql.size(); ++k) out << (k ? "," : "") << IC.getIndex(in.ql[k], in.qo[k], in.qs[k]);
         out << " chk=";
         for (ParticleIndex i = 0; i < N + 2; ++i) out << (IC.checkIndex(i) ? "1" : "0");
     }
-    out << "\nH " << id;
-    for (std::set<std::string>::const_iterator it = all_labels.begin(); it != all_labels.end(); ++it) {
+    return out.str();
+}
+
+static void run_case(const std::vector<std::string>& t) {
+    Input in;
+    in.id = t[1];
+    bool order_spins = atoi(t[2].c_str()) != 0;
+    read_lattice(t, 3, in);
+    const Lattice::SiteMap& SM = in.L.getSiteMap();
+    std::ostringstream out;
+    out << "R " << in.id << " " << sites_field(SM);
+
+    IndexClassification IC(SM);
+    bool crashed = guarded_prepare(IC, order_spins);
+    out << state_fields(IC, SM, in, crashed);
+
+    out << "\nH " << in.id;
+    for (std::set<std::string>::const_iterator it = in.all_labels.begin(); it != in.all_labels.end(); ++it) {
         IndexClassification::IndexInfo x(*it, 0, 0);
         out << " " << enc(*it) << "=" << x.SiteLabelHash;
     }
@@ -131,20 +164,43 @@ static void run_case(const std::vector<std::string>& t) {
     fflush(stdout);
 }
 
+// hist <id> <modes,modes,...> <nsites> ... : for every mode string (e.g. 011) a fresh IndexClassification on the lattice,
+// prepare(m) called once per character on that SAME object, the state dumped after every call.
+static void run_hist(const std::vector<std::string>& t) {
+    Input in;
+    in.id = t[1];
+    std::vector<std::string> hs;
+    { std::istringstream ss(t[2]); std::string h; while (std::getline(ss, h, ',')) if (!h.empty()) hs.push_back(h); }
+    read_lattice(t, 3, in);
+    const Lattice::SiteMap& SM = in.L.getSiteMap();
+    std::string sf = sites_field(SM);
+    for (size_t h = 0; h < hs.size(); ++h) {
+        IndexClassification IC(SM);
+        for (size_t k = 0; k < hs[h].size(); ++k) {
+            bool crashed = guarded_prepare(IC, hs[h][k] != '0');
+            std::ostringstream out;
+            out << "S " << in.id << ":" << hs[h] << ":" << k << " " << sf << state_fields(IC, SM, in, crashed) << "\n";
+            fputs(out.str().c_str(), stdout);
+            fflush(stdout);
+            if (crashed) break;          // the object is in an unknown state: the rest of this history is not run
+        }
+    }
+}
+
 int main() {
     std::string line;
     while (std::getline(std::cin, line)) {
         std::istringstream ss(line);
         std::vector<std::string> t; std::string w;
         while (ss >> w) t.push_back(w);
-        if (t.empty() || t[0] != "case") continue;
+        if (t.empty() || (t[0] != "case" && t[0] != "hist")) continue;
         fflush(stdout);
         pid_t pid = fork();
-        if (pid == 0) { run_case(t); _exit(0); }
+        if (pid == 0) { if (t[0] == "case") run_case(t); else run_hist(t); _exit(0); }
         int status = 0;
         waitpid(pid, &status, 0);
         if (!(WIFEXITED(status) && WEXITSTATUS(status) == 0)) {
-            printf("R %s DIED %d\n", t[1].c_str(), WIFSIGNALED(status) ? 1000 + WTERMSIG(status) : WEXITSTATUS(status));
+            printf("%s %s DIED %d\n", t[0] == "case" ? "R" : "S", t[1].c_str(), WIFSIGNALED(status) ? 1000 + WTERMSIG(status) : WEXITSTATUS(status));
             fflush(stdout);
         }
     }
